@@ -147,3 +147,24 @@ void h_cbc_padding(void)
 	for (int i = 0; i < N; i++) CHECK(back[i] == pt[i], "decrypt(encrypt(m)) = m");
 	V_REACH();
 }
+
+/* arbitrary ciphertext: acceptance implies a well-formed final padding length, reported length consistent */
+void h_cbc_padding_arbitrary(void)
+{
+	setup();
+	uint8_t ct[32], out[32], blk[16]; size_t outlen = 0;
+	for (int i = 0; i < 32; i++) ct[i] = nondet_u8();
+	int two = nondet_bool();
+	int ret = two ? sm4_cbc_padding_decrypt(&dk, iv0, ct, 32, out, &outlen) : sm4_cbc_padding_decrypt(&dk, iv0, ct, 16, out, &outlen);
+	size_t n = two ? 32 : 16;
+	sm4_encrypt(&dk, ct + n - 16, blk);                        /* D_k(last block) */
+	const uint8_t *prev = two ? ct : iv0;
+	uint8_t pad = blk[15] ^ prev[15];
+	if (ret == 1) {
+		V_COVER("padded ciphertext accepted");
+		CHECK(pad >= 1 && pad <= 16, "accepted => final padding length in 1..16");
+		CHECK(outlen == n - pad, "reported plaintext length = input - padding");
+	}
+	if (pad >= 1 && pad <= 16) { int allp = 1; for (int i = 0; i < 16; i++) if (i >= 16 - pad && (uint8_t)(blk[i] ^ prev[i]) != pad) allp = 0; if (allp) CHECK(ret == 1, "every correctly padded ciphertext is accepted"); }
+	V_REACH();
+}
